@@ -607,6 +607,13 @@ pub mod pool {
     pub use crate::network::connection_pool_verif::VerifPool;
 }
 
+/// C04: the metadata fetch's row -> `Peer` and option map -> `Strategy` conversions.
+pub mod fetching {
+    pub use crate::cluster::metadata::fetching_verif::{
+        peer_from_row, strategy_from_options, validate_peers,
+    };
+}
+
 /// C10: the reconnect policies (crate-private without the unstable feature) that pace a pool's refills.
 pub mod reconnect {
     pub use crate::policies::reconnect::{
